@@ -54,6 +54,9 @@ def parseVal (s : String) : Option Val :=
 def parseOptVal (s : String) : Option (Option Val) :=
   if s = "-" then some none else (parseVal s).map some
 
+def parseMixVal (s : String) : Option (Option (Option Val)) :=
+  if s = "-" then some none else if s = "=" then some (some none) else (parseVal s).map (fun v => some (some v))
+
 def obs (srt : Bool) (g : G) : String :=
   let es := g.entered.map (fun e => s!"E{e.1}:" ++ "+".intercalate (e.2.map (showVal srt)))
   let ks := g.arrived.map (fun e => s!"K{e.1}:" ++ showVal srt e.2)
@@ -110,7 +113,9 @@ def step (srt : Bool) (g : G) : List String → G × String
       | ["e", v] => (parseVal v).map Rel.err
       | ["d"] => some .drop
       | ["s", k] => k.toNat?.map Rel.sames
-      | "m" :: vs => (vs.mapM parseOptVal).map Rel.many
+      | "m" :: vs =>
+        -- `=`: the in packet itself on that out port
+        if vs.contains "=" then (vs.mapM parseMixVal).map Rel.mixed else (vs.mapM parseOptVal).map Rel.many
       | _ => none
     match n.toNat?, r with
     | some n, some r =>
